@@ -58,6 +58,15 @@ def _strategy(shapes):
             a, b = mu + za * sd, mu + zb * sd
         lower = None if mode == "upper_only" else (a.reshape(n, 1) if per else float(a[0]))
         upper = None if mode == "lower_only" else (b.reshape(n, 1) if per else float(b[0]))
+        # per-component limits may mix finite and infinite bounds on the same side
+        if per and n >= 2 and mode in ("two_sided", "near_mode", "far_tail") and draw(st.booleans()):
+            side = draw(st.sampled_from(["lower", "upper"]))
+            mask = draw(st.lists(st.booleans(), min_size=n, max_size=n))
+            if any(mask) and not all(mask):
+                if side == "lower":
+                    lower = np.where(np.array(mask)[:, None], -np.inf, lower)
+                else:
+                    upper = np.where(np.array(mask)[:, None], np.inf, upper)
         zc = draw(gen.arr((R if per else 1,), 0.1, 0.9))
         cut = a + zc * (b - a)
         return {"R": R, "Lambda": lam.reshape(R, 1, 1), "nu": nu.reshape(R, 1), "ln_beta": lb, "mode": mode, "per": per,
